@@ -145,9 +145,20 @@ def run_network(spec, walk, ctx, case):
     def build():
         created = {}
         for s in spec['sources']:
-            created[s] = edzed.Input(s, initdef=spec['init'][s])
+            if s == spec.get('faulty_src'):
+                # on_output event that fails harmlessly (unknown event type) for falsy values
+                sink = edzed.Counter('sinkc', initdef=0)
+                created[s] = edzed.Input(s, initdef=spec['init'][s], on_output=edzed.Event(
+                    sink, edzed.EventCond('inc', 'nosuch'), efilter=edzed.not_from_undef))
+            else:
+                created[s] = edzed.Input(s, initdef=spec['init'][s])
         for f in spec['fed']:
             created[f['name']] = edzed.Input(f['name'], initdef=f['init'])
+        if spec.get('relay'):
+            # an Input that feeds no combinational block at all; its on_output event sets the
+            # real source: every burst starts with the change of an unconnected block
+            created['relay'] = edzed.Input('relay', initdef=spec['init'][spec['relay']],
+                                           on_output=edzed.Event(spec['relay'], 'put'))
         feeders = {f['feeder']: f['name'] for f in spec['fed']}
         for c in spec['cblocks']:
             kw = {}
@@ -187,7 +198,14 @@ def run_network(spec, walk, ctx, case):
             if step:
                 state['burst_evals'] = 0
                 for s, v in vec.items():
-                    edzed.ExtEvent(created[s], 'put').send(v)
+                    try:
+                        if s == spec.get('relay'):
+                            ctx.count('relayed_changes')
+                            edzed.ExtEvent(created['relay'], 'put').send(v)
+                        else:
+                            edzed.ExtEvent(created[s], 'put').send(v)
+                    except edzed.EdzedUnknownEvent:
+                        ctx.count('harmless_event_failures')
                 await harness.settle(4)
             state['max_burst'] = max(state['max_burst'], state['burst_evals'])
             if not sim.alive():
@@ -290,8 +308,11 @@ def random_network(rng):
         cbs.append({'name': 'konst', 'kind': kind, 'ins': [rng.choice(['#T', '#F']) for _ in range(k)]})
         cbs.append({'name': 'kuser', 'kind': rng.choice(['xor', 'and', 'or']),
                     'ins': ['konst', rng.choice(sources)]})
-    return {'sources': sources, 'init': {s: rng.random() < 0.5 for s in sources},
+    spec = {'sources': sources, 'init': {s: rng.random() < 0.5 for s in sources},
             'fed': fed, 'cblocks': cbs}
+    if rng.random() < 0.15:
+        spec['faulty_src'] = rng.choice(sources)
+    return spec
 
 
 def ring(rng):
@@ -350,7 +371,11 @@ def gen(ctx):
             if eval_bound(spec) > 3 * nblocks:
                 continue
         walk = [dict(spec['init'])]
-        for _ in range(rng.randrange(2, 7)):
+        steps = rng.randrange(2, 7)
+        if kind == 'ladder' and rng.random() < 0.35:
+            spec['relay'] = 's0'
+            steps = rng.randrange(8, 16)
+        for _ in range(steps):
             s = rng.choice(spec['sources'])
             cur = {}
             for w in walk:
